@@ -33,7 +33,9 @@ def main():
         c.report({"kind": f["kind"], "lexeme": f.get("lexeme", ""), "cls": f.get("cls", ""), "what": f["what"] + ": " + repr(f.get("lexeme")),
                   "text": f["text"], "lexemes": f.get("lexemes"), "expected": f.get("expected"), "observed": f.get("observed"),
                   "panic": f.get("panic")})
-    c.cov.update({"states": stats["pairs_states"], "transitions": stats["pairs_states"],
+    mr = model_refines(c)
+    c.cov["design_level"] = mr
+    c.cov.update({"states": stats["pairs_states"] + mr["states"], "transitions": stats["pairs_states"],
                   "traces_validated_against_impl": out["cases"], "exhaustive": True,
                   "pool_lexemes": stats["pool"], "well_formed_cases": len(wf), **stats})
     for i in (7, len(wf) // 2, len(wf) - 3):
